@@ -361,6 +361,56 @@ fn sequential_pairs(sets: &mut Sets, st: &mut Stats) {
     }
 }
 
+/// A long-lived instance: the generator of a fresh instance is moved far ahead in its key stream
+/// through the public `rng()` accessor (a pure seek: 16 GiB, 64 GiB, 256 GiB … of output later),
+/// between identical batches of calls. Whatever the instance does after that much output
+/// (re-keying, counters wrapping), it must not produce again what it produced before.
+fn long_lived_instance(sets: &mut Sets, st: &mut Stats) {
+    let Some(fx) = fixture() else { return };
+    let Some(mut msk) = ser(&fx.msk).ok().and_then(|b| de::<MasterSecretKey>(&b).ok()) else { return };
+    let cc = Covercrypt::default();
+    let mut batch = |sets: &mut Sets, msk: &mut MasterSecretKey| {
+        for i in 0..6 {
+            let ap = if i % 2 == 0 { &fx.classic_ap } else { &fx.hybrid_ap };
+            if let Out::Ok((s, x)) = call(|| cc.encaps(&fx.mpk, ap)) {
+                sets.put("encapsulated secret", real::secret_bytes(&s).to_vec());
+                if let Some(Ok(w)) = ser(&x).ok().map(|b| WXenc::parse(&b)) {
+                    sets.put("tag", w.tag.clone());
+                }
+            }
+            if let Out::Ok((_, c)) = call(|| <Covercrypt as PkeAc<{ Aes256Gcm::KEY_LENGTH }, Aes256Gcm>>::encrypt(&cc, &fx.mpk, ap, b"p")) {
+                if c.len() >= 12 {
+                    sets.put("PKE nonce", c[..12].to_vec());
+                }
+            }
+            if let Out::Ok((s, h)) = call(|| EncryptedHeader::generate(&cc, &fx.mpk, ap, Some(b"m"), None)) {
+                sets.put("header secret", real::secret_bytes(&s).to_vec());
+                if let Some(Ok(w)) = ser(&h).ok().map(|b| WHeader::parse(&b)) {
+                    if w.meta.len() >= 12 {
+                        sets.put("header nonce", w.meta[..12].to_vec());
+                    }
+                }
+            }
+            if let Out::Ok(u) = call(|| cc.generate_user_secret_key(msk, ap)) {
+                if let Some(Ok(w)) = ser(&u).ok().map(|b| WUsk::parse(&b)) {
+                    sets.put("user id", w.id.concat());
+                }
+            }
+        }
+    };
+    batch(sets, &mut msk);
+    for pos in [1u128 << 32, (1u128 << 32) + 1_000_003, 1u128 << 34, 1u128 << 36, (1u128 << 40) + 17, 1u128 << 60] {
+        let moved = call_inf(|| cc.rng().set_word_pos(pos));
+        if !moved.is_ok() {
+            st.bump("long_lived_seek_failed");
+            continue;
+        }
+        batch(sets, &mut msk);
+        st.bump("long_lived_instance_epochs");
+        st.shapes.insert(fnv(format!("long-lived|{pos}").as_bytes()));
+    }
+}
+
 /// Many instances in one process: every instance must have its own randomness (master scalar from
 /// `setup`, first encapsulated secret).
 fn many_instances(sets: &mut Sets, st: &mut Stats, n: usize) {
@@ -418,6 +468,7 @@ pub fn run(tier: &str, _seed: u64, threads: usize) -> Stats {
     {
         let mut seq = Sets::default();
         sequential_pairs(&mut seq, &mut st);
+        long_lived_instance(&mut seq, &mut st);
         many_instances(&mut seq, &mut st, if tier == "thorough" { 20_000 } else { 1_200 });
         for (k, d) in &seq.dups {
             if *d > 0 {
